@@ -38,6 +38,14 @@ def read_all(app, tag):
     note(tag + ':url', rq.url)
     note(tag + ':env_m', rq.environ.get('sim.m'))
     note(tag + ':app', rq.app is app)
+    note(tag + ':remote', (rq.remote_addr, list(rq.remote_route)))
+    note(tag + ':auth', rq.auth)
+    note(tag + ':xhr', rq.is_xhr)
+    note(tag + ':ctype', (rq.content_type, rq.content_length))
+    note(tag + ':paths', (rq.script_name, rq.fullpath))
+    note(tag + ':json_wanted', bool(rq.is_json_requested))
+    note(tag + ':signed', rq.get_cookie('s', secret='k3y'))
+    note(tag + ':params_m', rq.params.get('m') if rq.method == 'GET' else None)
 
 
 def write_some(app, m, status):
@@ -45,6 +53,7 @@ def write_some(app, m, status):
     rs.status = status
     rs.headers['X-R'] = 'r' + m
     rs.set_cookie('rc', 'k' + m, path='/p' + m)
+    rs.set_cookie('sg', 'v' + m, secret='k3y')
     rs.headers.append('X-Multi', 'a' + m)
     rs.headers.append('X-Multi', 'b' + m)
 
